@@ -8,7 +8,8 @@
 #     profile : release | checked
 #
 # Builds into /verif/.cache/target-<cfg> and prints the path of the driver
-# binary on stdout (cargo's own output goes to stderr).  Safe to call
+# binary on stdout (cargo's own output goes to /verif/.cache/build-<cfg>-<profile>.log,
+# shown on stderr only when the build fails).  Safe to call
 # repeatedly and concurrently: takes an flock on /verif/.cache/lock.<cfg>;
 # cargo itself makes the call a no-op when everything is up to date.
 set -euo pipefail
@@ -58,13 +59,12 @@ unset CARGO_ENCODED_RUSTFLAGS CARGO_BUILD_RUSTFLAGS || true
 exec 9>"$CACHE/lock.$CFG"
 flock 9
 
+LOG="$CACHE/build-$CFG-$PROFILE.log"
 (
   cd "$HERE"
-  cargo "${TOOLCHAIN[@]}" build --offline --locked --quiet --profile "$PROFILE" \
-      --bin driver "${FEATURE_ARGS[@]}" 1>&2 \
-  || cargo "${TOOLCHAIN[@]}" build --offline --profile "$PROFILE" \
-      --bin driver "${FEATURE_ARGS[@]}" 1>&2
-)
+  cargo "${TOOLCHAIN[@]}" build --offline --profile "$PROFILE" \
+      --bin driver "${FEATURE_ARGS[@]}"
+) >"$LOG" 2>&1 || { echo "build.sh: cargo failed for $CFG/$PROFILE (log: $LOG)" >&2; tail -n 60 "$LOG" >&2; exit 1; }
 
 BIN="$CARGO_TARGET_DIR/$PROFILE/driver"
 [ -x "$BIN" ] || { echo "build.sh: $BIN missing" >&2; exit 1; }
